@@ -305,6 +305,10 @@ class Module:
         tree = ast.parse(self.src, filename=path)
         rw = _DoRewriter()
         self.tree = rw.visit(tree)
+        from .normalise import inline_single_use_helpers, swap_negated_returns, filtered_loops_to_if
+        self.inlined_helpers = inline_single_use_helpers(self.tree)
+        filtered_loops_to_if(self.tree)
+        swap_negated_returns(self.tree)
         self.tree = _IfNormaliser().visit(self.tree)
         ast.fix_missing_locations(self.tree)
         self.do_rewrites = rw.count
